@@ -8,9 +8,10 @@
    (1) `query_sound`, `query_sound_top`: an accepted token list splits into the consumed tokens and the rest; the consumed
        tokens read as the yield of the returned tree (`matchB (yieldQ q) pre`), and that yield is derivable in G_Q.
        The expression slots are discharged by `MF.Props.C07.parse_sound` through the erasure theorem.
-   (2) completeness is proved CLAUSE-WISE only so far (`expr_slot_complete`, `where_complete`, `having_complete`; eventual-fuel
-       form, side conditions explicit: no unquoted SAFE_CAST / REPLACE_FIELDS identifier — inherited from C07 — and the next
-       token does not continue an expression); `query_complete` for whole derivations of G_Q is NOT proved (report §4).
+   (2) `query_complete_partial`: every derivation of G_Q WITHOUT the `expr.*` production, followed by `<eof>`, is accepted
+       (eventual-fuel form, one tree); side conditions explicit, each shown necessary (`complete_needs_castfree`,
+       `trailing_comma_placement`); `query_complete_statement_partial`: the same through ParseStatement, same tree;
+       clause-wise: `expr_slot_complete`, `where_complete`, `having_complete`.
    (3) `query_entry_points_agree`: on a token list that starts with SELECT the statement entry point answers exactly what
        the query entry point answers — for every fuel and every kind of answer (ok / raise / outside / outOfFuel).
 -/
@@ -70,24 +71,103 @@ theorem accepted_starts_select {fuel : Nat} {ts : List Token} {q : QueryStatemen
       · assumption
       · cases hs
 
+/-- (2) **completeness** for G_Q without the `expr.*` production (`QueryD0`; hence `_partial`): every derivation, read by
+a token list `pre` and followed by `<eof>`, is accepted by ParseQuery — ONE tree for all sufficiently large fuels.
+Side conditions: (a) `hc` — no unquoted SAFE_CAST / REPLACE_FIELDS identifier (inherited from `MF.Props.C07.parse_complete`;
+necessary: `complete_needs_castfree`); (c) the placement of the trailing comma is part of `QueryG` (necessary:
+`trailing_comma_placement`).  (b) the `expr.*` production is left out because C07 exports completeness only for a
+following token that does not continue an expression (`Follow` excludes `.`). -/
+theorem query_complete_partial {ds : List QD} {pre rest : List Token} (hd : QueryD0 ds) (hm : matchB ds pre = true)
+    (hc : ∀ t ∈ pre, isCastLike t = false) (hr : qcur rest = .eof) :
+    ∃ q n, ∀ fuel, n ≤ fuel → parseQueryTop fuel (pre ++ rest) = .ok q := by
+  obtain ⟨q, n, hn⟩ := queryD0_complete hd hm hc hr
+  exact ⟨q, n, hn⟩
+
+/-- (2)+(3) the same through the statement entry point, with the same tree -/
+theorem query_complete_statement_partial {ds : List QD} {pre rest : List Token} (hd : QueryD0 ds)
+    (hm : matchB ds pre = true) (hc : ∀ t ∈ pre, isCastLike t = false) (hr : qcur rest = .eof) :
+    ∃ q n, ∀ fuel, n ≤ fuel → parseStatementTop fuel (pre ++ rest) = .ok q ∧ parseQueryTop fuel (pre ++ rest) = .ok q := by
+  obtain ⟨q, n, hn⟩ := query_complete_partial hd hm hc hr
+  refine ⟨q, n, fun f hf => ?_⟩
+  have h := hn f hf
+  exact ⟨by rw [query_entry_points_agree (accepted_starts_select h)]; exact h, h⟩
+
+/-- `QueryD0` is a sub-grammar of G_Q -/
+theorem queryD0_sub {ds : List QD} (h : QueryD0 ds) : QueryD ds := by
+  cases h with
+  | mk tr ha his hf hw hg hh ho hl htr =>
+    refine QueryG.mk tr ha ?_ hf hw hg hh ho hl htr
+    clear htr
+    induction his with
+    | one h => exact SepBy.one (by cases h with
+        | star => exact ItemD.star
+        | expr he => exact ItemD.expr he
+        | alias he ha => exact ItemD.alias he ha)
+    | cons h _ ih => exact SepBy.cons (by cases h with
+        | star => exact ItemD.star
+        | expr he => exact ItemD.expr he
+        | alias he ha => exact ItemD.alias he ha) ih
+
 /-- (2) an expression slot of G_Q, followed by a token that does not continue an expression, is consumed exactly by the
-expression parser with positions (from `MF.Props.C07.parse_complete` through the erasure theorem) -/
+expression parser with positions (from `MF.Props.C07.parse_complete` through the erasure theorem and `parsePExpr_mono`) -/
 theorem expr_slot_complete {ds : List QD} {pre rest : List Token} (he : ExprY ds) (hm : matchB ds pre = true)
     (hc : ∀ t ∈ pre, isCastLike t = false) (hf : Follow rest) :
-    ∃ n, ∀ fuel, n ≤ fuel → ∃ e, parsePExpr fuel (pre ++ rest) = .ok (e, rest) :=
-  parsePExpr_acc he hm hc hf
+    ∃ e n, ∀ fuel, n ≤ fuel → parsePExpr fuel (pre ++ rest) = .ok (e, rest) :=
+  parsePExpr_ev he hm hc hf
 
 /-- (2) every derivation of `WHERE expr` is accepted by `tryParseWhere` -/
 theorem where_complete {ds : List QD} {pre rest : List Token} (hd : WhereD ds) (hm : matchB ds pre = true)
     (hc : ∀ t ∈ pre, isCastLike t = false) (hf : Follow rest) :
-    ∃ n, ∀ fuel, n ≤ fuel → ∃ w, tryParseWhere fuel (pre ++ rest) = .ok (w, rest) :=
-  tryParseWhere_acc hd hm hc hf
+    ∃ w n, ∀ fuel, n ≤ fuel → tryParseWhere fuel (pre ++ rest) = .ok (some w, rest) := by
+  obtain ⟨w, n, hn⟩ := where_complete' hd hm hc hf
+  exact ⟨w, n, hn⟩
 
 /-- (2) every derivation of `HAVING expr` is accepted by `tryParseHaving` -/
 theorem having_complete {ds : List QD} {pre rest : List Token} (hd : HavingD ds) (hm : matchB ds pre = true)
     (hc : ∀ t ∈ pre, isCastLike t = false) (hf : Follow rest) :
-    ∃ n, ∀ fuel, n ≤ fuel → ∃ w, tryParseHaving fuel (pre ++ rest) = .ok (w, rest) :=
-  tryParseHaving_acc hd hm hc hf
+    ∃ w n, ∀ fuel, n ≤ fuel → tryParseHaving fuel (pre ++ rest) = .ok (some w, rest) := by
+  obtain ⟨w, n, hn⟩ := having_complete' hd hm hc hf
+  exact ⟨w, n, hn⟩
+
+/-! ## the side conditions are necessary (kernel-checked, at the driver's fuel) -/
+
+/-- the parser's own answer on a text (the token-level OUTSIDE rule of the channel is not applied) -/
+def answerKind (buf : Bytes) : String :=
+  match Lex.lexAll buf with
+  | .ok ts =>
+    match parseQueryTop (Query.topFuel ts) ts with
+    | .ok _ => "ok" | .raise => "raise" | .outside => "outside" | .crash => "crash" | .outOfFuel => "fuel"
+  | _ => "lex"
+
+/-- the descriptor list reads the tokens of the text (all but `<eof>`) -/
+def readsAs (ds : List QD) (buf : Bytes) : Bool :=
+  match Lex.lexAll buf with
+  | .ok ts => matchB ds ts.dropLast
+  | _ => false
+
+/-- (a) `SELECT safe_cast` is a sentence of G_Q (a select list of one expression, the column `safe_cast`), its tokens read
+as that derivation, and the parser does NOT accept it: it leaves the fragment at the unquoted word (`isCastLike`) -/
+theorem complete_needs_castfree :
+    QueryD0 [.kw .select, .e ⟨.ident, B "safe_cast"⟩] ∧
+    readsAs [.kw .select, .e ⟨.ident, B "safe_cast"⟩] (B "SELECT safe_cast") = true ∧
+    answerKind (B "SELECT safe_cast") = "outside" ∧ answerKind (B "SELECT `safe_cast`") = "ok" := by
+  refine ⟨?_, by decide +kernel, by decide +kernel, by decide +kernel⟩
+  have h := QueryG.mk (I := ItemD0) (a := []) (is := [.e ⟨.ident, B "safe_cast"⟩]) (f := []) (w := []) (g := []) (h := [])
+    (o := []) (l := []) false AodD.none
+    (SepBy.one (ItemD0.expr ⟨.ident (B "safe_cast"), by decide, by decide, rfl⟩)) Opt.none Opt.none Opt.none Opt.none
+    Opt.none Opt.none (by intro h; cases h)
+  simpa [trailD] using h
+
+/-- (c) a trailing comma before WHERE / LIMIT (not before FROM, not at the very end) is rejected although the select list,
+the comma and the clause are each well formed: the placement condition of `QueryG` cannot be dropped -/
+theorem trailing_comma_placement :
+    answerKind (B "SELECT a, FROM t WHERE b") = "ok" ∧ answerKind (B "SELECT a,") = "ok" ∧
+    answerKind (B "SELECT a, WHERE b") = "raise" ∧ answerKind (B "SELECT a, LIMIT 1") = "raise" ∧
+    answerKind (B "SELECT a WHERE b") = "ok" ∧ answerKind (B "SELECT a LIMIT 1") = "ok" := by
+  refine ⟨?_, ?_, ?_, ?_, ?_, ?_⟩ <;> decide +kernel
+
+/-- (b) the production left out of `query_complete_partial` IS accepted on these inputs (explored by the channel on every run) -/
+example : answerKind (B "SELECT t.*, a + b.*, NOT a.* FROM t") = "ok" := by decide +kernel
 
 /-! ## non-vacuity: concrete statements through the model lexer and the model parser -/
 
